@@ -77,6 +77,44 @@ pub fn h_memlimit<T: DecodeWithMemTracking + Spec, const L: usize>(c: Option<u32
 /// only used to exempt nothing at the moment (kept explicit for clarity)
 fn holds_heap_by_type<T>() -> bool { false }
 
+/// the limit must hold through the library's other wrappers as well: decode_with_depth_limit over a memory-limited input and a
+/// counting input over it accept/reject exactly like decode_with_mem_limit with the same limit
+pub fn h_memlimit_composed<T: DecodeWithMemTracking, const L: usize>(c: Option<u32>) {
+	use parity_scale_codec::{CountedInput, DecodeLimit};
+	let bytes: [u8; L] = kani::any();
+	let len: usize = kani::any();
+	kani::assume(len <= L);
+	let lim: usize = kani::any();
+	let (r1, r2, r3) = match c {
+		Some(c) => {
+			let r1 = T::decode_with_mem_limit(&mut Pre::count32(c, &bytes[..len]), lim);
+			let mut i2 = Pre::count32(c, &bytes[..len]);
+			let r2 = T::decode_with_depth_limit(16, &mut MemTrackingInput::new(&mut i2, lim));
+			let mut i3 = Pre::count32(c, &bytes[..len]);
+			let r3 = T::decode(&mut CountedInput::new(&mut MemTrackingInput::new(&mut i3, lim)));
+			(r1, r2, r3)
+		},
+		None => {
+			let r1 = T::decode_with_mem_limit(&mut &bytes[..len], lim);
+			let mut i2 = &bytes[..len];
+			let r2 = T::decode_with_depth_limit(16, &mut MemTrackingInput::new(&mut i2, lim));
+			let mut i3 = &bytes[..len];
+			let r3 = T::decode(&mut CountedInput::new(&mut MemTrackingInput::new(&mut i3, lim)));
+			(r1, r2, r3)
+		},
+	};
+	assert!(r1.is_ok() == r2.is_ok(), "the memory limit is not enforced (or enforced differently) under decode_with_depth_limit");
+	assert!(r1.is_ok() == r3.is_ok(), "the memory limit is not enforced (or enforced differently) under a counting input");
+	kani::cover!(r1.is_err() && len == L, "reach: limit hit on complete input");
+	kani::cover!(r1.is_ok(), "reach: accepted");
+	core::mem::forget((r1, r2, r3));
+}
+#[kani::proof] #[kani::unwind(11)] pub fn c12q_composed_box_u64() { h_memlimit_composed::<Box<u64>, 9>(None) }
+#[kani::proof] #[kani::unwind(8)] pub fn c12q_composed_vec_u16_2() { h_memlimit_composed::<Vec<u16>, 5>(Some(2)) }
+#[kani::proof] #[kani::unwind(8)] pub fn c12q_composed_vec_opt_2() { h_memlimit_composed::<Vec<Option<u8>>, 5>(Some(2)) }
+#[kani::proof] #[kani::unwind(8)] pub fn c12t_composed_list_2() { h_memlimit_composed::<LinkedList<u8>, 3>(Some(2)) }
+#[kani::proof] #[kani::unwind(8)] pub fn c12t_composed_string_2() { h_memlimit_composed::<String, 3>(Some(2)) }
+
 macro_rules! ml {
 	($($name:ident: $t:ty, $c:expr, $l:literal, $s:literal, $u:literal;)*) => {$(
 		#[kani::proof] #[kani::unwind($u)] pub fn $name() { h_memlimit::<$t, $l>($c, $s) }
